@@ -25,6 +25,12 @@ def chooser(F):
     return C.one(fs, 'piece chooser (returns Option<usize>, orders candidates)')
 
 
+def status_field(F):
+    """'self.<field>' of the manager's status vector (the Vec<Status> field)"""
+    adt, name = C.field_by_type(F, r'^std::vec::Vec<session::Status>$', 'status vector')
+    return name
+
+
 def closure_ret(F, path):
     cf = F.fn(path)
     for b2, b in enumerate(cf.blocks):
@@ -105,22 +111,28 @@ def r2(cx, rec):
             cf, r = closure_ret(F, clo[0][1])
             pred = r
     rec.site(Ch, sb, 'still-missing counts %s' % (show(pred)[-70:] if pred else None))
-    rec.need(pred is not None and pred[0] == 'call' and pred[4].get('name') == 'ne' and pred[2][1][0] == 'agg' and pred[2][1][3] == 'Have' and 'pieces_status' in show(pred[2][0]),
+    rec.need(pred is not None and pred[0] == 'call' and pred[4].get('name') == 'ne' and pred[2][1][0] == 'agg' and pred[2][1][3] == 'Have' and status_field(F) in show(pred[2][0]),
              'still-missing-predicate', Ch, sb, 'the number compared with the threshold does not count `status != Have`')
     for lab, bb, want in (('end-game', tbox, ('ne', 'Have')), ('normal', fbox, ('eq', 'Missing'))):
         clo = [x for x in walk(Ch.expr_call(bb)) if x[0] == 'closure']
         cf, r = closure_ret(F, clo[0][1])
-        okp = r is not None and r[0] == 'call' and r[4].get('name') == want[0] and r[2][1][0] == 'agg' and r[2][1][3] == want[1] and 'pieces_status' in show(r[2][0]) and show(r[2][0]).endswith(', idx)')
+        okp = r is not None and r[0] == 'call' and r[4].get('name') == want[0] and r[2][1][0] == 'agg' and r[2][1][3] == want[1] and status_field(F) in show(r[2][0]) and \
+            r[2][0][0] == 'call' and r[2][0][4].get('name') == 'index' and C.param_pos(cf, r[2][0][2][1]) is not None
         rec.site(cf, None, '%s filter: %s' % (lab, show(r)[-70:] if r else None))
         rec.need(okp, 'filter/' + lab, cf, None, '%s candidate filter is %s (expected status %s %s)' % (lab, show(r)[-80:] if r else None, '!=' if want[0] == 'ne' else '==', want[1]))
     # the filter is applied to build the candidate vector
     flt = [bb for bb in mirq.real_calls(Ch) if Ch.expr_call(bb)[4].get('name') == 'filter' and bb in Ch.reach_from(sb)]
+    # the local that holds the selected predicate (captured under the same name by the filter closure)
+    box_names = set()
+    for l, nm in Ch._localnames.items():
+        if l > Ch.argc and any(x[0] == 'call' and x[3] in (tbox, fbox) for x in walk(Ch.expr_local(l), inl=False)):
+            box_names.add(nm)
     okf = False
     for bb in flt:
         clo = [x for x in walk(Ch.expr_call(bb)) if x[0] == 'closure']
         for c in clo:
             cf, r = closure_ret(F, c[1])
-            if r is not None and r[0] == 'call' and r[1] == 'std::ops::Fn::call' and access_path(r[2][0]) == 'is_desired' and show(r[2][1]).endswith('arg2.0}'):
+            if r is not None and r[0] == 'call' and r[1] == 'std::ops::Fn::call' and access_path(r[2][0]) in box_names and show(r[2][1]).endswith('arg2.0}'):
                 okf = True
     rec.need(okf, 'filter-not-applied', Ch, None, 'the selected filter is not applied to the piece index of each candidate')
 
@@ -155,7 +167,9 @@ def r3(cx, rec):
             rec.need(sbb in Ch.reach_from(s) and s not in Ch.reach_from(sbb), 'shuffle-after-sort', Ch, s, 'the shuffle runs after the sort and destroys the rarest-first order')
             rec.need(not nm.startswith('sort_unstable') , 'unstable-sort-after-shuffle', Ch, sbb, 'unstable sort: tie-break no longer uniform (not a violation of order)') if False else None
         # scan: iterates the sorted vector front to back
-        scan = [bb for bb in mirq.real_calls(Ch) if Ch.expr_call(bb)[4].get('name') in ('iter', 'rev', 'into_iter') and 'rarest' in show(Ch.expr_call(bb)) and bb in Ch.reach_from(sbb)]
+        sorted_vec = mirq.root_var(e[2][0])
+        scan = [bb for bb in mirq.real_calls(Ch) if Ch.expr_call(bb)[4].get('name') in ('iter', 'rev', 'into_iter') and sorted_vec
+                and mirq.root_var(Ch.expr_call(bb)[2][0]) == sorted_vec and bb in Ch.reach_from(sbb)]
         rev = [bb for bb in scan if Ch.expr_call(bb)[4].get('name') == 'rev']
         rec.need(bool(scan) and not rev, 'scan-order', Ch, sbb, 'the sorted candidates are not scanned front to back')
     # availability counts all peers
